@@ -185,7 +185,7 @@ pub fn run_xml_tree(cfg: &XmlCfg, sched: &[Feed], end: bool) -> XTreeOut {
         }
     }
     let d = p.tokenizer.sink.verif_dump();
-    let tb_key = format!("{}|{:?}|{:?}|{}|{}", d.phase, d.open_elems, d.curr_elem, d.namespace_stack, d.current_namespace);
+    let tb_key = format!("{}|{:?}|{:?}|{}|{}|{}", d.phase, d.open_elems, d.curr_elem, d.namespace_stack, d.current_namespace, d.doctype_appended);
     if end {
         p.tokenizer.end();
     }
